@@ -151,7 +151,7 @@ def run(pid, tier):
     for (j, rc, o) in crashes:
         p = V.save_replay(pid, 'crash-%s.log' % os.path.basename(j[0]), o)
         vio_out.append(('driver aborted / sanitizer report (rc=%d) on %s' % (rc, j[0]), p))
-    if nx == 0 or nt == 0:
+    if (nx == 0 or nt == 0) and not vio_out:
         raise V.Infra('vacuous: %d exchanges verified, %d tampered datagrams' % (nx, nt))
     V.write_evidence(pid, tier, 'model_checking', dict(
         traces_validated_against_impl=nexec, exchanges_verified_field_by_field=nx, tampered_datagrams=nt, samples=[cases[0][1][:3]], exhaustive=False,
